@@ -251,7 +251,9 @@ pub fn tiling_walk(v: &View, vd: &mut Verdict, report: bool) -> TilingOutcome {
                         }
                     }
                 }
-                Ev::Close { conn, .. } => {
+                // only the client's own close ends its processing: data pushed before a peer's Fin
+                // is still read and handled afterwards
+                Ev::Close { conn, by: world::Side::Client, .. } => {
                     epochs.remove(conn);
                 }
                 _ => {}
